@@ -5,6 +5,9 @@ location of the agent's own scratch worktree /tmp/<wb|wt><tag>_<PID>; nothing fr
 import json, os, sys
 kind, tag, pids = sys.argv[1], sys.argv[2], sys.argv[3:]
 focus = {}
+style_txt = ""
+if "--style" in pids:  # --style "extra sentence for the benign prompt"
+    i = pids.index("--style"); style_txt = pids[i + 1].rstrip() + " "; del pids[i:i + 2]
 if "--focus" in pids:  # --focus FILE: json {PID: "quoted clause(s) of the property's own statement to aim at"}
     i = pids.index("--focus"); focus = json.load(open(pids[i + 1])); del pids[i:i + 2]
 props = {json.loads(l)["id"]: json.loads(l) for l in open("/verif/properties.jsonl")}
@@ -27,7 +30,7 @@ STATEMENT: {d['statement']}
 CODE AREAS INVOLVED: {areas}
 MECHANISMS: {mech}
 
-Your task: produce THREE independent, realistic, BEHAVIOUR-PRESERVING refactorings of the code that implements this property — the kind of clean-up a maintainer would merge: renaming locals, introducing or removing temporaries, extracting a small helper method/function, reordering independent statements, if/else versus early return, an equivalent numpy/python idiom (np.zeros vs np.full(…,0.0), a loop versus a comprehension, `x is not None` forms, re-associated arithmetic, splitting a long expression), moving a computation into a private helper in the same module, etc. Each refactoring must (a) really change the shape of the code in the listed areas that carry the property (not comments/docstrings/whitespace only, not unrelated code), (b) keep the observable behaviour and the property exactly true (same results, same random-number consumption in the same order, same files written, same exceptions), (c) keep the whole existing test suite passing. Make the three different in kind and touch different functions where possible. Do not touch the tests.
+Your task: produce THREE independent, realistic, BEHAVIOUR-PRESERVING refactorings of the code that implements this property — the kind of clean-up a maintainer would merge: renaming locals, introducing or removing temporaries, extracting a small helper method/function, reordering independent statements, if/else versus early return, an equivalent numpy/python idiom (np.zeros vs np.full(…,0.0), a loop versus a comprehension, `x is not None` forms, re-associated arithmetic, splitting a long expression), moving a computation into a private helper in the same module, etc. Each refactoring must (a) really change the shape of the code in the listed areas that carry the property (not comments/docstrings/whitespace only, not unrelated code), (b) keep the observable behaviour and the property exactly true (same results, same random-number consumption in the same order, same files written, same exceptions), (c) keep the whole existing test suite passing. Make the three different in kind and touch different functions where possible. {style_txt}Do not touch the tests.
 
 Deliver, all inside {wt}/refactor_out/ : patch1.diff, patch2.diff, patch3.diff — each the `git diff` of ONE refactoring against the UNCHANGED tree (produce them one at a time: make the change, run the full test suite, save `git -C {wt} diff > refactor_out/patchN.diff`, then `git -C {wt} checkout -- src` before the next one), plus notes.md saying for each patch what was changed, why behaviour is preserved, and the test-suite result. Each patch must apply to the unchanged tree with `git apply`. Leave the worktree with NO source change applied. In your final answer give a short summary of the three refactorings and their test results."""
     else:
